@@ -37,7 +37,7 @@ func init() {
 	register(&Property{
 		ID:    "C28",
 		Level: "exploration",
-		Rule: "cases = lock/unlock/TTL-expiry histories over K distinct keys and over 8K distinct keys (K = 2..8) with 1..2 callers per key, run to quiescence (every TTL elapsed, every caller returned); " +
+		Rule: "cases = lock/unlock/TTL-expiry histories over K distinct keys and over 8K distinct keys (K = 2..8) with 1..2 callers per key (plain callers, callers whose context is already cancelled or expires while queued, duplicate unlocks, unlocks of keys nobody locked), run to quiescence (every TTL elapsed, every caller returned); " +
 			"the objects reachable from the lock service are counted by a reflective walk after quiescence; non-trivial = all locks released or expired and at least 8 distinct keys used; distinct = hash of (K, scripts, schedule trace)",
 		Gen:         genC28,
 		Run:         runC28,
@@ -501,14 +501,35 @@ func runC28(t *testing.T, c Case) (res Result) {
 			for key := 0; key < nkeys; key++ {
 				for p := 0; p < per; p++ {
 					key, p := key, p
+					// how this caller behaves: plain, arriving with a context that is already cancelled, with a context
+					// that expires while it may be queued, or unlocking twice and unlocking a key nobody ever locked
+					variant := int(simrt.Mix(c.Seed, uint64(key*131+p*7+round)) % 7)
+					if c.cfg("plain", 0) == 1 {
+						variant = 0
+					}
 					id := simrt.GoID(func() {
-						id, err := l.Lock(context.Background(), fmt.Sprintf("k%d", key), ttl)
+						ctx := context.Background()
+						switch variant {
+						case 3:
+							cctx, cancel := context.WithCancel(ctx)
+							cancel()
+							ctx = cctx
+						case 4:
+							cctx, cancel := context.WithTimeout(ctx, time.Millisecond)
+							defer cancel()
+							ctx = cctx
+						}
+						id, err := l.Lock(ctx, fmt.Sprintf("k%d", key), ttl)
 						if err != nil {
 							return
 						}
 						simrt.Sleep(time.Duration((key+p)%5) * time.Millisecond)
-						if (key*7+p*13)%100 < unlockPct {
+						if (key*7+p*13)%100 < unlockPct || variant == 5 {
 							l.Unlock(fmt.Sprintf("k%d", key), id)
+						}
+						if variant == 5 {
+							l.Unlock(fmt.Sprintf("k%d", key), id)
+							l.Unlock(fmt.Sprintf("never-locked-%d", key), id)
 						}
 					})
 					ids = append(ids, id)
